@@ -68,6 +68,22 @@ THEOREMS = [
     "HedVerif.C16.exGroup_wellFormed",
 ]
 BUDGET = {"quick": 900, "thorough": 3600}
+# closed mode at dataset level: theorems of lean/HedVerif/Props/C16Closed.lean (stream: harness/props/closed_c16.py)
+EXTRA_AUDIT = ("HedVerif.Props.C16Closed", [
+    "HedVerif.C16.closed_is_instance",
+    "HedVerif.C16.datasetClosed_is_instance",
+    "HedVerif.C16.dataset_closed_is_union",
+    "HedVerif.C16.dataset_closed_is_union_tree",
+    "HedVerif.C16.sidecarClosed_total",
+    "HedVerif.C16.group_closed_total",
+    "HedVerif.C16.dataset_closed_total",
+    "HedVerif.C16.dataset_closed_fileError",
+    "HedVerif.C16.group_issue_file",
+    "HedVerif.C16.excluded_files_silent",
+    "HedVerif.C16.chain_map",
+    "HedVerif.C16.file_judged_with_merged_sidecar_closed",
+    "HedVerif.C16.two_subject_example_closed",
+])
 
 
 def _chars(s):
@@ -824,6 +840,9 @@ def run(ctx):
         if len(ctx.violations) + len(ctx.disagreements) > 60:
             break
         ctx.check_time()
+    if len(ctx.violations) + len(ctx.disagreements) <= 60:
+        from harness.props import closed_c16
+        closed_c16.run_closed(ctx)
 
 
 def replay(ctx, rec):
@@ -831,6 +850,11 @@ def replay(ctx, rec):
     case = rec.get("case") or (rec.get("disagreements") or [{}])[0].get("case")
     if not case:
         print("nothing to replay (obligation-only record):", rec.get("broken_obligations"))
+        return
+    if case.get("closed"):
+        from harness.props import closed_c16
+        closed_c16.run_closed(ctx, trees=[{k: case[k] for k in ("files", "onsets", "excl", "cfw")}])
+        print("replayed (closed)", json.dumps(sorted(case["files"]))[:300])
         return
     tree = {"files": case["files"], "excl": case.get("excl", list(DEFAULT_EXCL)), "cfw": case.get("cfw", False),
             "format": case.get("format", "text"), "output": case.get("output", False),
